@@ -52,10 +52,15 @@ let run () = iter_lines (fun line ->
     let et = text_of_hex e in
     let m = regex_prepare et in
     bump (if res = "err" then "prepare:does-not-compile" else if m = et then "prepare:unchanged" else "prepare:changed");
+    let plain0 = List.for_all (fun c -> let c = int_of_n c in c <> 92 && c <> 123 && c <> 125 && c <> 91 && c <> 93 && c <> 40 && c <> 41 && c <> 42 && c <> 43 && c <> 63 && c <> 124) et in
+    if res = "err" && plain0 then report "SPEC:C04" "a regex expression made of literal characters, `.` `^` `-` only is rejected" line;
     if res = "panic" then report "SPEC:C04" "making a regex rule panicked" line
     else if res <> "err" then begin
       let impl = text_of_hex (String.sub res 1 (String.length res - 1)) in
-      if impl <> m then report "DIFF:regex-prepare" "the prepared regex expression differs from the model's" line
+      if impl <> m then report "DIFF:regex-prepare" "the prepared regex expression differs from the model's" line;
+      (* C04_regex_prepare_plain, evaluated on the implementation: without backslash and brackets the expression is used as written *)
+      let plain = List.for_all (fun c -> let c = int_of_n c in c <> 92 && c <> 123 && c <> 125 && c <> 91 && c <> 93) et in
+      if plain && impl <> et then report "SPEC:C04" "a regex expression without backslash, curly or square bracket is not handed to the regex crate as written" line
     end
   | 'g', [p; ln; res; cres] ->
     let p = text_of_hex p in
